@@ -463,10 +463,29 @@ def main():
                                     "count": len(bad), "seed": seed})
             violations.append((rp, True))
     if proof_problems and not violations:
+        # a theorem / generated obligation no longer checks: search the implementation for a concrete failing input
         found = None
-        rp = write_replay(pid, {"property": pid, "kind": "proof-obligation-broken",
-                                "theorem_or_stream": proof_problems[:20], "seed": seed})
-        violations.append((rp, True))
+        if hasattr(mod, "search_streams") and os.path.exists(os.path.join(LEAN, ".lake", "build", "bin", "driver")):
+            try:
+                recs2 = correspondence(ctx, mod, mod.search_streams(ctx, []))
+                _, m2, s2, _, c2 = classify(recs2)
+                s2 = [r for r in s2 + c2 if not known_match(r)]
+                if s2:
+                    s2.sort(key=lambda r: len(r["line"]))
+                    found = s2[0]
+            except Exception as e:
+                log("search failed: %r" % (e,))
+        if found:
+            rp = write_replay(pid, {"property": pid, "kind": "implementation-violates-spec", "config": found["cfg"],
+                                    "context_lines": [found["context"]] if found.get("context") else [],
+                                    "op_lines": [found["line"]], "seed": seed, "actual": found["got"],
+                                    "driver": found["verdict"], "found_by": "violation search after a proof obligation broke",
+                                    "theorem_or_stream": proof_problems[:20]})
+            violations.append((rp, False))
+        else:
+            rp = write_replay(pid, {"property": pid, "kind": "proof-obligation-broken",
+                                    "theorem_or_stream": proof_problems[:20], "seed": seed})
+            violations.append((rp, True))
     # counter-theorem bookkeeping: a known finding that no longer reproduces must be retired (reported, not fatal)
     stale = [f["id"] for f in kf if f["id"] not in known_hits and f.get("expect_hit", True)]
 
